@@ -250,7 +250,11 @@ static inline void QueueAll(const Kind & k, const Outgoing & og, AbstractMessage
    else for (size_t i = 0; i < og.items.size(); i++) {
       const bool text = (k.id == K_TXT);
       MessageRef m = GetMessageFromPool(text ? PR_COMMAND_TEXT_STRINGS : PR_COMMAND_RAW_DATA);
-      for (size_t j = 0; j < og.items[i].size(); j++) { const std::string & s = og.items[i][j]; if (text) (void) m()->AddString(PR_NAME_TEXT_LINE, String(s.data(), (uint32)s.size())); else (void) m()->AddData(PR_NAME_DATA_CHUNKS, B_RAW_TYPE, s.data(), (uint32)s.size()); }
+      for (size_t j = 0; j < og.items[i].size(); j++) {
+         const std::string & s = og.items[i][j];
+         if (text) (void) m()->AddString(PR_NAME_TEXT_LINE, String(s.data(), (uint32)s.size()));
+         else { ByteBufferRef b = GetByteBufferFromPool((uint32)s.size(), (const uint8 *)s.data()); (void) m()->AddFlat(PR_NAME_DATA_CHUNKS, b); }   // (AddData refuses zero-length items)
+      }
       (void) g.AddOutgoingMessage(m);
    }
 }
